@@ -189,3 +189,13 @@ func init() {
 		LevelText:   "exploration of reply behaviours, concurrency and disconnect moments against the real adapter code",
 		LevelNote:   "trusted base: natsfake, VerifPending hook, monotonic clock for lower bounds"})
 }
+
+func init() {
+	add(&Prop{ID: "C15", Level: "exploration", Shards: 16, CrashIsViol: true,
+		Technique:   "runtime monitoring with fuzzing: corpus and mutation based hostile messages of every kind injected into a running gateway with subscribed clients, one worker process per batch with a write-ahead log; monitors: process survival, exact quiescence and probe events (no stall), cache-vs-client agreement (all-or-nothing), cache unchanged and silence for clear-cut malformed messages",
+		Rule:        "hostile messages of 16 kinds (change/add/remove/custom/wrong-kind events, get/access/call/auth/query/reset re-fetch responses, query events, system.reset, system.tokenReset, conn token events, client frames, HTTP bodies) drawn from hand-written corpora of malformed payloads (wrong JSON types, boundary integers, negative/out-of-range indexes, ambiguous/unknown value objects, unwrapped nested values, invalid rids, truncated JSON, deep nesting, 100 kB keys) or produced by seeded mutation of valid payloads, injected into gateways with a model, a collection with a reference, a query collection and two clients (latest and 1.1.1); distinct = distinct (kind, payload); all non-trivial",
+		Assumptions: []string{"a crash is observed as the abnormal exit of the worker process (the gateway has no recover())", "whether a mutated message is valid is not decided by the harness; for those only 'cache and clients agree afterwards' is required; 'cache unchanged, nothing forwarded' is required for the corpus entries marked as clearly malformed"},
+		DesignRef:   "DESIGN.md §4 C15",
+		LevelText:   "exploration by corpus + mutation fuzzing against the running gateway with invariants checked after every message",
+		LevelNote:   "trusted base: VerifSnapshot hook for the cache contents, RefClient for the client copies, exact quiescence"})
+}
